@@ -550,7 +550,7 @@ func init() {
 	CaseReplayers["C03/denominator-uniformity"] = func(r *mc.Run, c string) { r.ReplayCase(c03UniformEnum(), c) }
 	CaseReplayers["C03/reward-block"] = func(r *mc.Run, c string) { r.ReplayCase(c03Enum(true), c) }
 	Props["C03"] = Prop{Level: "model_checking", Run: func(r *mc.Run, tier string) {
-		r.Rules = append(r.Rules, "bounded-exhaustive construction of the state at a reward block through real messages and blocks: every ordering of every non-empty subset of {P1,P2,P3} as prover list x every subset missing the last window x sizes {1,7,1000} x {2,3} gauges (one with two denominations) x young-file variant; one provider lapsing on 130 / 260 files in one reward block; the same with 11-day blocks, so that every payment gauge has run out and been swept before the reward block under test; two files x all list/fail combinations over 2 (thorough: 3) provers; thorough adds an unregistered prover; one cross-block case demanding that a single denominator rule (listed bytes or credited bytes) explains the payouts of all 108 one-file reward blocks with a non-empty proper failing subset. Non-trivial = at least one prover missed the window")
+		r.Rules = append(r.Rules, "bounded-exhaustive construction of the state at a reward block through real messages and blocks: every ordering of every non-empty subset of {P1,P2,P3} as prover list x every subset missing the last window x sizes {1,7,1000} x {2,3} gauges (one with two denominations) x young-file variant; one provider lapsing on 130 / 260 files in one reward block; the same with 11-day blocks, so that every payment gauge has run out and been swept before the reward block under test; two files x all list/fail combinations over 2 (thorough: 3) provers; thorough adds an unregistered prover; one cross-block case demanding that a single denominator rule (listed bytes or credited bytes) explains the payouts of all 96 one-file reward blocks with a non-empty proper failing subset. Non-trivial = at least one prover missed the window")
 		r.Assumptions = append(r.Assumptions, "the denominator of a share may be all listed bytes or all credited bytes (both size-weighted); one denominator for all provers of a block, and one rule for all blocks, is demanded", "ProofWindow 3, CheckWindow 2, 1-day blocks")
 		dl := time.Now().Add(50 * time.Second)
 		if tier == "thorough" {
